@@ -313,6 +313,10 @@ func (ns *namesys) Publish(ctx context.Context, name ci.PrivKey, value path.Path
 
 	ipnsName := ipns.NameFromPeer(pid)
 	cacheKey := ipnsName.String()
+	// Resolution caches its results under the name's content path: drop that
+	// entry, so that resolving after this publish does not keep returning the
+	// previously published value until the old entry expires.
+	defer ns.cacheInvalidate(ipnsName.AsPath().String())
 
 	span.SetAttributes(attribute.String("ID", pid.String()))
 	if err := ns.ipnsPublisher.Publish(ctx, name, value, options...); err != nil {
